@@ -1094,7 +1094,7 @@ fn main() {
 
     enum Req {
         Fn(String, Option<String>, Vec<(String, String)>, bool),
-        Impl(String, Vec<String>, Vec<(String, String)>),
+        Impl(String, Vec<String>, Vec<(String, String)>, bool),
         Ty(String),
     }
     let mut rs = Vec::new();
@@ -1125,6 +1125,8 @@ fn main() {
             }
             "impl" => {
                 known.insert(w[1].rsplit("::").next().unwrap().to_string());
+                let nobounds = w.iter().any(|x| *x == "nobounds");
+                let w: Vec<&str> = w.iter().cloned().filter(|x| *x != "nobounds").collect();
                 let wpos = w.iter().position(|x| *x == "with").unwrap_or(w.len());
                 let mut renames = Vec::new();
                 for pair in w[(wpos + 1).min(w.len())..].iter().flat_map(|x| x.split(',')) {
@@ -1133,7 +1135,7 @@ fn main() {
                         known.insert(b.to_string());
                     }
                 }
-                rs.push(Req::Impl(w[1].to_string(), w[2..wpos].iter().map(|s| s.to_string()).collect(), renames));
+                rs.push(Req::Impl(w[1].to_string(), w[2..wpos].iter().map(|s| s.to_string()).collect(), renames, nobounds));
             }
             "struct" | "enum" => {
                 known.insert(w[1].rsplit("::").next().unwrap().to_string());
@@ -1190,7 +1192,7 @@ fn main() {
                 out.push_str("//@@END\n\n");
                 report.push_str(&format!("fn {} as {} slice_patterns={} casts={} loops={}\n", path, name, st.slice_pats, st.casts, st.loops));
             }
-            Req::Impl(path, methods, renames) => {
+            Req::Impl(path, methods, renames, nobounds) => {
                 let Some(impls) = idx.impls.get(&path) else {
                     missing.push(path);
                     continue;
@@ -1204,6 +1206,15 @@ fn main() {
                             if methods.contains(&name) {
                                 found.insert(name.clone());
                                 let mut sig = m.sig.clone();
+                                if nobounds {
+                                    sig.generics.where_clause = None;
+                                    for gp in sig.generics.params.iter_mut() {
+                                        if let GenericParam::Type(tp) = gp {
+                                            tp.bounds.clear();
+                                            tp.colon_token = None;
+                                        }
+                                    }
+                                }
                                 let mut block = m.block.clone();
                                 let what = format!("{}#{}::{}", path, k, name);
                                 let (ts, st) = lower_fn_parts(&mut sig, &mut block, &mut errors, &what);
